@@ -48,12 +48,26 @@ pub enum Call {
     LimitsExactlyAtUsage,
     /// same document, per-anchor expansion limit one below the usage: must fail the same way every time
     PerAnchorLimitBelowUsage,
+    /// un-anchored Rc wrappers: three separate allocations
+    RcPlain,
+    /// un-anchored weak anchor field: must be an error the same way every time
+    RcWeakPlain,
+    /// iterator whose first document fails to deserialize and whose reader breaks during recovery;
+    /// abandoned after the first item
+    IterFailThenReaderBreaks,
+    /// serialise a freshly allocated 5-byte string that looks numeric / that does not
+    SerNumericLooking,
+    SerWordSameLength,
+    /// serialisation that fails midway through a shared graph
+    SerFailsMidway,
     /// outer document with three nest points; the inner call runs at nest point k (3 = never)
     NestRc { k: u8, inner: Box<Call> },
+    /// the nest point sits inside an anchored node deserialized into an RcAnchor (anchor context stack not empty)
+    NestInsideAnchor { k: u8, inner: Box<Call> },
     NestRecursive { k: u8, inner: Box<Call> },
 }
 
-pub const BASIC: [Call; 28] = [
+pub const BASIC: [Call; 34] = [
     Call::OkCfg,
     Call::OkJsonAnchors,
     Call::FailMidAnchor,
@@ -82,6 +96,12 @@ pub const BASIC: [Call; 28] = [
     Call::FailDeepInReplay,
     Call::LimitsExactlyAtUsage,
     Call::PerAnchorLimitBelowUsage,
+    Call::RcPlain,
+    Call::RcWeakPlain,
+    Call::IterFailThenReaderBreaks,
+    Call::SerNumericLooking,
+    Call::SerWordSameLength,
+    Call::SerFailsMidway,
 ];
 
 // ------------------------------------------------------------------------------------------------
@@ -208,6 +228,41 @@ struct NestDoc {
     f1: NestField,
     b: RcAnchor<String>,
     f2: NestField,
+}
+
+#[derive(Debug, Deserialize)]
+#[allow(dead_code)]
+struct InnerNest {
+    f: NestField,
+    v: i32,
+}
+
+#[derive(Debug, Deserialize)]
+#[allow(dead_code)]
+struct AnchoredNestDoc {
+    w: RcAnchor<InnerNest>,
+    z: RcAnchor<InnerNest>,
+}
+
+#[derive(Debug, Deserialize)]
+#[allow(dead_code)]
+struct WeakDoc {
+    a: RcAnchor<String>,
+    w: serde_saphyr::RcWeakAnchor<String>,
+}
+
+struct FailingSer;
+impl Serialize for FailingSer {
+    fn serialize<S: serde::Serializer>(&self, _s: S) -> Result<S::Ok, S::Error> {
+        Err(serde::ser::Error::custom("probe-ser-error"))
+    }
+}
+
+#[derive(Serialize)]
+struct SerFailDoc {
+    a: RcAnchor<String>,
+    bad: FailingSer,
+    b: RcAnchor<String>,
 }
 
 #[derive(Debug, Deserialize)]
@@ -438,6 +493,76 @@ pub fn run_call(c: &Call) -> String {
             };
             res(guard(|| serde_saphyr::from_str_with_options::<serde_json::Value>(doc, opts)), |v| v.to_string())
         }
+        Call::RcPlain => res(guard(|| serde_saphyr::from_str::<RcDoc>("a: x\nb: y\nc: z\n")), |d| {
+            format!(
+                "a={} b={} c={} ab={} bc={}",
+                d.a.0,
+                d.b.0,
+                d.c.0,
+                std::rc::Rc::ptr_eq(&d.a.0, &d.b.0),
+                std::rc::Rc::ptr_eq(&d.b.0, &d.c.0)
+            )
+        }),
+        Call::RcWeakPlain => res(guard(|| serde_saphyr::from_str::<WeakDoc>("a: x\nw: y\n")), |d| {
+            format!("a={} w={:?}", d.a.0, d.w.upgrade().map(|r| (*r).clone()))
+        }),
+        Call::IterFailThenReaderBreaks => {
+            // document 0 fails at `oops`; the reader dies inside the rest of document 0 while the iterator skips it
+            let text = b"- 1\n- oops\n- [3, 4, 5, 6, 7, 8]\n- {a: b, c: d}\n- 9\n---\n- 10\n";
+            let mut rd = SimReader::new(
+                text,
+                ReaderScript {
+                    chunking: Some(Chunking::Fixed(6)),
+                    faults: vec![ReadFault {
+                        pos: FaultPos::AtByte(30),
+                        kind: ErrKind::BrokenPipe,
+                        after: After::Sticky,
+                    }],
+                    ..Default::default()
+                },
+            );
+            let r = guard(|| {
+                let mut it = serde_saphyr::read::<_, Vec<i64>>(&mut rd);
+                let first = match it.next() {
+                    Some(Ok(v)) => format!("{v:?}"),
+                    Some(Err(e)) => err_str(&e),
+                    None => "None".into(),
+                };
+                // abandoned here
+                Ok::<_, serde_saphyr::Error>(first)
+            });
+            res(r, |s| s)
+        }
+        Call::SerNumericLooking | Call::SerWordSameLength => {
+            // a fresh allocation of the same size class each time
+            let v: String = if matches!(c, Call::SerNumericLooking) { "12345" } else { "hello" }.chars().collect();
+            let r = guard(|| serde_saphyr::to_string(&v));
+            drop(v);
+            match r {
+                Ok(Ok(t)) => t,
+                Ok(Err(e)) => format!("SerErr({e})"),
+                Err(a) => format!("{a:?}"),
+            }
+        }
+        Call::SerFailsMidway => {
+            let s = std::rc::Rc::new("shared".to_string());
+            let d = SerFailDoc {
+                a: RcAnchor(s.clone()),
+                bad: FailingSer,
+                b: RcAnchor(s),
+            };
+            match guard(|| serde_saphyr::to_string(&d)) {
+                Ok(Ok(t)) => t,
+                Ok(Err(e)) => format!("SerErr({e})"),
+                Err(a) => format!("{a:?}"),
+            }
+        }
+        Call::NestInsideAnchor { k, inner } => {
+            NEST.with(|n| n.borrow_mut().push((*k, 0, (**inner).clone())));
+            let r = guard(|| serde_saphyr::from_str::<AnchoredNestDoc>("w: &outer\n  f: x\n  v: 1\nz: *outer\n"));
+            NEST.with(|n| n.borrow_mut().pop());
+            res(r, |d| format!("v={} wz={}", d.w.0.v, std::rc::Rc::ptr_eq(&d.w.0, &d.z.0)))
+        }
         Call::NestRc { k, inner } => {
             NEST.with(|n| n.borrow_mut().push((*k, 0, (**inner).clone())));
             let r = guard(|| serde_saphyr::from_str::<NestDoc>(NEST_RC_DOC));
@@ -467,6 +592,10 @@ fn without_nesting(c: &Call) -> Call {
             inner: Box::new(Call::OkCfg),
         },
         Call::NestRecursive { .. } => Call::NestRecursive {
+            k: 9,
+            inner: Box::new(Call::OkCfg),
+        },
+        Call::NestInsideAnchor { .. } => Call::NestInsideAnchor {
             k: 9,
             inner: Box::new(Call::OkCfg),
         },
@@ -604,7 +733,7 @@ pub fn exec(c: &HistoryCase, st: &mut Stats) -> Vec<Viol> {
     let sched_digest = crate::rng::fnv(serde_json::to_string(c).unwrap().as_bytes());
     st.schedules.insert(sched_digest);
     st.behaviours.insert(sched_digest);
-    if n > 1 || c.threads[0].len() > 1 || c.threads[0].iter().any(|x| matches!(x, Call::NestRc { .. } | Call::NestRecursive { .. })) {
+    if n > 1 || c.threads[0].len() > 1 || c.threads[0].iter().any(|x| matches!(x, Call::NestRc { .. } | Call::NestRecursive { .. } | Call::NestInsideAnchor { .. })) {
         st.nontrivial.insert(sched_digest);
     }
     for (ti, o) in outs.iter().enumerate() {
@@ -671,6 +800,7 @@ fn call_name(c: &Call) -> String {
     match c {
         Call::NestRc { .. } => "NestRc".into(),
         Call::NestRecursive { .. } => "NestRecursive".into(),
+        Call::NestInsideAnchor { .. } => "NestInsideAnchor".into(),
         o => format!("{o:?}"),
     }
 }
@@ -679,6 +809,7 @@ fn short_call(c: &Call) -> String {
     match c {
         Call::NestRc { k, inner } => format!("NestRc(k={k}, inner={})", short_call(inner)),
         Call::NestRecursive { k, inner } => format!("NestRecursive(k={k}, inner={})", short_call(inner)),
+        Call::NestInsideAnchor { k, inner } => format!("NestInsideAnchor(k={k}, inner={})", short_call(inner)),
         o => format!("{o:?}"),
     }
 }
@@ -687,7 +818,7 @@ fn short_call(c: &Call) -> String {
 // Generation
 
 /// calls used as inner calls of nestings and in exhaustive histories
-pub const CORE: [Call; 15] = [
+pub const CORE: [Call; 19] = [
     Call::OkCfg,
     Call::FailMidAnchor,
     Call::RcShare,
@@ -703,6 +834,10 @@ pub const CORE: [Call; 15] = [
     Call::FailAfterAliases,
     Call::LimitsExactlyAtUsage,
     Call::PerAnchorLimitBelowUsage,
+    Call::IterFailThenReaderBreaks,
+    Call::ReaderOk,
+    Call::SerNumericLooking,
+    Call::SerWordSameLength,
 ];
 
 fn all_nestings() -> Vec<Call> {
@@ -715,6 +850,10 @@ fn all_nestings() -> Vec<Call> {
             });
         }
         v.push(Call::NestRecursive {
+            k: 0,
+            inner: Box::new(inner.clone()),
+        });
+        v.push(Call::NestInsideAnchor {
             k: 0,
             inner: Box::new(inner.clone()),
         });
@@ -864,7 +1003,7 @@ pub fn shrink(c: &HistoryCase) -> Vec<Case> {
         }
         // un-nest: replace a nesting by its inner call, or by the outer without nesting
         for i in 0..c.threads[t].len() {
-            if let Call::NestRc { inner, .. } | Call::NestRecursive { inner, .. } = &c.threads[t][i] {
+            if let Call::NestRc { inner, .. } | Call::NestRecursive { inner, .. } | Call::NestInsideAnchor { inner, .. } = &c.threads[t][i] {
                 let mut n = c.clone();
                 n.threads[t][i] = (**inner).clone();
                 out.push(Case::C15(n));
